@@ -1,6 +1,7 @@
 package exec
 
 import (
+	"go/types"
 	"fmt"
 	"runtime/debug"
 	"sort"
@@ -34,7 +35,20 @@ type Instance struct {
 	FeasTimeoutMs  int
 	StepLimit      int64
 	TimeLimit      time.Duration
-	KnownFindings  []string
+	Known          []KnownPred
+}
+
+// KnownPred characterises a recorded (not repaired) defect by a predicate over harness inputs.
+type KnownPred struct {
+	ID          string
+	Label       string // substring of the obligation label it applies to
+	Constraints []KnownConstraint
+}
+
+type KnownConstraint struct {
+	Input string `json:"input"`
+	Op    string `json:"op"`
+	Value int64  `json:"value"`
 }
 
 func (in *Instance) defaults() {
@@ -71,7 +85,7 @@ func RunInstance(prog *Program, inst *Instance, sv Solvers) (res *InstanceResult
 	res = &InstanceResult{Instance: inst, CoverHit: map[string]bool{}, CoverSeen: map[string]bool{}, Funcs: map[string]int{}}
 	res.sem = make(chan struct{}, 64)
 	st := &State{prog: prog, b: term.NewB(), inst: inst, res: res, pool: sv.Pool,
-		globals: map[*ssa.Global]*Object{}, lockOwner: map[*Object]int{}, redirect: map[string]*ssa.Function{}}
+		sizeMemo: map[types.Type]int{}, globals: map[*ssa.Global]*Object{}, lockOwner: map[*Object]int{}, redirect: map[string]*ssa.Function{}}
 	st.stepLimit = inst.StepLimit
 	defer func() {
 		if r := recover(); r != nil {
@@ -243,7 +257,15 @@ func (st *State) runPath() (reason string) {
 type Verdict struct {
 	Violations   []Violation
 	Inconclusive []string
+	Known        []Violation
 	OK           bool
+}
+
+func ufOf(m *term.Model) map[string]map[string]uint64 {
+	if m == nil {
+		return nil
+	}
+	return m.UF
 }
 
 type Violation struct {
@@ -260,15 +282,14 @@ func (r *InstanceResult) Verdict() Verdict {
 	for _, e := range r.Errors {
 		v.Inconclusive = append(v.Inconclusive, "engine: "+e)
 	}
-	for _, cf := range r.CertainFail {
-		viol := Violation{Instance: r.Instance, Kind: cf.Kind, Label: cf.Msg, Pos: cf.Pos, Inputs: cf.Inputs}
-		if cf.Model != nil {
-			viol.UF = cf.Model.UF
-		}
-		v.Violations = append(v.Violations, viol)
-	}
 	for _, vr := range r.Results {
 		cover := vr.Obs[0].Kind == "cover"
+		if vr.Obs[0].Kind == "known" {
+			if vr.Result == smt.Sat {
+				v.Known = append(v.Known, Violation{Instance: r.Instance, Kind: "known", Label: vr.Obs[0].Label, Pos: vr.Obs[0].Pos, Inputs: vr.Inputs, UF: ufOf(vr.Model)})
+			}
+			continue
+		}
 		switch vr.Result {
 		case smt.Unknown:
 			v.Inconclusive = append(v.Inconclusive, fmt.Sprintf("solver gave no answer for %s %q at %s", vr.Obs[0].Kind, vr.Obs[0].Label, vr.Obs[0].Pos))
